@@ -22,6 +22,8 @@ type sessEnv struct {
 	ws     bool
 	wsBase int
 	client *xmpp.Client
+	comp   *xmpp.Component
+	sender xmpp.StreamClient // the client or the component: Send / SendRaw / SendIQ
 	router *xmpp.Router
 	w      *tr.Writer
 	before map[string]string
@@ -95,7 +97,7 @@ func newSessEnv(w *tr.Writer, tid int, o envOpts) (*sessEnv, error) {
 	if err != nil {
 		return nil, fmt.Errorf("NewClient: %v", err)
 	}
-	env.client = client
+	env.client, env.sender = client, client
 	client.SetHandler(func(e xmpp.Event) error {
 		w.Emit(tr.Rec{"ev": "event", "state": int(xmpp.VerifEventState(e)), "smid": e.SMState.Id, "inbound": clampU(e.SMState.Inbound)})
 		return nil
@@ -183,7 +185,7 @@ func (env *sessEnv) startReader() {
 func (env *sessEnv) drained(timeout time.Duration) bool {
 	return env.run.waitFor(timeout, func(c map[string]int) bool {
 		if env.ws {
-			return env.run.framesRead >= c["ws.write"]-env.wsBase
+			return env.run.framesRead >= c["ws.write"]-env.wsBase || env.run.faulted
 		}
 		return env.run.bytesRead >= env.run.bytesWritten || env.run.faulted
 	})
@@ -256,4 +258,68 @@ func (env *sessEnv) reconnect(o envOpts) error {
 	env.run.armed = true
 	env.run.mu.Unlock()
 	return nil
+}
+
+// newCompEnv: an established XEP-0114 component session against the scripted server (TCP).
+func newCompEnv(w *tr.Writer, tid int, o envOpts) (*sessEnv, error) {
+	run := &sessRun{cnt: map[string]int{}, w: w, tid: tid, gate: o.Gate, gateKV: o.GateKV}
+	run.cond = sync.NewCond(&run.mu)
+	curRun.Store(run)
+	env := &sessEnv{run: run, w: w, before: libGoroutines(), rdDone: make(chan struct{})}
+	server, err := srv.Listen()
+	if err != nil {
+		return nil, err
+	}
+	env.server = server
+	env.router = xmpp.NewRouter()
+	if o.Handler != nil {
+		env.router.NewRoute().HandlerFunc(o.Handler)
+	}
+	opts := xmpp.ComponentOptions{
+		TransportConfiguration: xmpp.TransportConfiguration{Address: server.Addr, Domain: "comp.localhost", ConnectTimeout: 1},
+		Domain:                 "comp.localhost", Secret: "secret", Name: "verif component",
+	}
+	comp, err := xmpp.NewComponent(opts, env.router, func(e error) { w.Emit(tr.Rec{"ev": "errcb"}) })
+	if err != nil {
+		return nil, err
+	}
+	env.comp, env.sender = comp, comp
+	type negOut struct {
+		conn *srv.Conn
+		err  error
+	}
+	negc := make(chan negOut, 1)
+	go func() {
+		conn, err := server.Accept(5 * time.Second)
+		if err != nil {
+			negc <- negOut{nil, err}
+			return
+		}
+		if _, err := conn.Expect(5 * time.Second); err != nil {
+			negc <- negOut{conn, err}
+			return
+		}
+		conn.Write("<?xml version='1.0'?><stream:stream xmlns:stream='" + srv.NSStream + "' xmlns='jabber:component:accept' from='comp.localhost' id='cid-1'>")
+		if _, err := conn.Expect(5 * time.Second); err != nil {
+			negc <- negOut{conn, err}
+			return
+		}
+		negc <- negOut{conn, conn.Write("<handshake/>")}
+	}()
+	cerr := comp.Connect()
+	neg := <-negc
+	if neg.err != nil || cerr != nil {
+		if neg.conn != nil {
+			neg.conn.Close()
+		}
+		env.close()
+		return nil, fmt.Errorf("precondition: component session could not be established (component: %v, server: %v)", cerr, neg.err)
+	}
+	env.conn = neg.conn
+	run.mu.Lock()
+	run.bytesRead = run.bytesWritten
+	run.failAt, run.partial, run.keepOpen, run.failOnce = o.FailWrite, o.Partial, o.KeepOpen, o.FailOnce
+	run.armed = true
+	run.mu.Unlock()
+	return env, nil
 }
